@@ -75,7 +75,7 @@ MUTANTS = [
     ("win_env_size_forgets_terminator", "process.windows.c", "    joined_size += strlen(env[i]) + 1; // Count the NUL terminator.", "    joined_size += strlen(env[i]);", "win_env_block", "C18/env_join_size.entries_plus_terminators_plus_final_nul"),
     ("poll_source_without_deadline_displaces", "reproc.c", "    if (process == NULL || process->deadline == REPROC_INFINITE) {", "    if (process == NULL) {", "find_earliest_deadline", "C08/poll.find_earliest.earliest_absolute_deadline_whatever_the_order"),
     ("strv_concat_drops_last_extra", "strv.c", "  STRV_FOREACH(j, b) {\n    r[c] = str_dup(*j);", "  STRV_FOREACH(j, b) {\n    if (j[1] == NULL) { size--; break; }\n    r[c] = str_dup(*j);", "strv_concat", "C03/strv_concat.parent_entries_then_extra_entries_copied_byte_for_byte"),
-    ("win_argv_join_counts_only_the_last_space", "process.windows.c", "    joined_size += argument_escaped_size(argv[i]);\n\n    if (argv[i + 1] != NULL) {", "    joined_size += argument_escaped_size(argv[i]);\n\n    if (argv[i + 1] == NULL) {", "win_argv_join", ""),
+    ("win_argv_join_counts_only_the_last_space", "process.windows.c", "    joined_size += argument_escaped_size(argv[i]);\n\n    if (argv[i + 1] != NULL) {", "    joined_size += argument_escaped_size(argv[i]);\n\n    if (argv[i + 1] == NULL) {", "win_argv_join", "argv_join.pointer_dereference"),
     ("strv_concat_frees_callers_vector", "strv.c", "    STRV_FOREACH(i, r) {\n      free(*i);\n    }\n\n    free(r);", "    STRV_FOREACH(i, a) {\n      free(*i);\n    }\n\n    free(r);", "strv_concat", ""),
     ("strv_concat_null_for_empty_vectors", "strv.c", "  char **r = calloc(size, sizeof(char *));", "  if (size == 1) {\n    return NULL;\n  }\n\n  char **r = calloc(size, sizeof(char *));", "strv_concat", "C04+C05+C06/strv_concat.null_only_when_allocation_failed"),
     ("strv_concat_leaks_on_failure", "strv.c", "    STRV_FOREACH(i, r) {\n      free(*i);\n    }\n\n    free(r);\n\n    return NULL;", "    free(r);\n\n    return NULL;", "strv_concat", "__CPROVER__start.memory-leak.1"),
@@ -117,9 +117,10 @@ def one(m, keep=False):
         defs = []
         r = subprocess.run([os.path.join(VERIF, "verif"), "harness", harness] + defs, capture_output=True, text=True, env=env)
         refuted = [l.split()[1] for l in r.stdout.splitlines() if l.strip().startswith("FAILURE") and "canary/" not in l and "reach/" not in l]
-        if "NO-VERDICT" in r.stdout and label not in refuted:
+        hit = label in refuted or any(x.startswith(label) for x in refuted)
+        if "NO-VERDICT" in r.stdout and not hit:
             return name, "NO-VERDICT", r.stdout[-300:]
-        if label in refuted or any(x.startswith(label) for x in refuted):
+        if hit:
             return name, "caught", ", ".join(refuted)
         return name, "MISSED", "refuted: %s | %s" % (refuted, r.stdout[-400:])
     finally:
